@@ -2,7 +2,7 @@
    Statements only; proofs are [exact] of lemmas in Resolver/ParamFacts.v, Creds.v, CredFacts.v, SubFacts.v. *)
 From Coq Require Import List Bool NArith ZArith.
 From PV Require Import Base.Str Base.Value Resolver.Consts Resolver.Text Resolver.Resolve Resolver.Spec Resolver.SubFacts
-  Resolver.Template Resolver.ParamFacts Resolver.Creds Resolver.CredFacts.
+  Resolver.Template Resolver.ParamFacts Resolver.Creds Resolver.CredFacts Resolver.BindLaws.
 Import ListNotations.
 Local Open Scope N_scope.
 
@@ -406,3 +406,210 @@ Proof. repeat split; vm_compute; reflexivity. Qed.
 Example C04_ex_default_null_differs :
   tplDefault VNull <> tplDefault sHard /\ hc_resolved (tplDefault VNull) [82] = Ok false /\ hc_resolved (tplDefault sHard) [82] = Ok true.
 Proof. split; [vm_compute; discriminate | split; vm_compute; reflexivity]. Qed.
+
+(* ================================================================================================================ *)
+(* ALGEBRAIC LAWS of parameter binding (Resolver/BindLaws.v).  Laws that FAIL carry the suffix _refuted and a witness.
+   render_param d v marker  = how a PRESENT value v of the parameter declared by d is rendered (NoEcho: the marker; list types:
+   a list is kept, a text is split at ","; otherwise str(v));  undeclared decls extra = the supplied keys that are not declared. *)
+Definition dStrDefault : value := VDict [(K_Type, VStr [83]); (K_Default, VStr [100])].          (* Type S, Default "d" *)
+Definition dNoEchoDefault : value := VDict [(K_Type, VStr [83]); (K_Default, VStr [100]); (K_NoEcho, VBool true)].
+
+(* (a) LOCALITY: the binding of a name is a function of ITS declaration, the value supplied under ITS name and the library
+   default of ITS name -- whatever else is declared or supplied *)
+Theorem C04_binding_local : forall pseudo1 pseudo2 decls1 decls2 extra1 extra2 ps1 ps2 k,
+  bind_params pseudo1 decls1 extra1 = Ok ps1 -> bind_params pseudo2 decls2 extra2 = Ok ps2 ->
+  NoDup (keys decls1) -> NoDup (keys decls2) ->
+  lookup k decls1 = lookup k decls2 -> lookup k extra1 = lookup k extra2 -> lookup k pseudo1 = lookup k pseudo2 ->
+  lookup k ps1 = lookup k ps2.
+Proof. exact binding_local. Qed.
+Print Assumptions C04_binding_local.
+Example C04_ex_binding_local :  (* P declared the same way in two templates with different neighbours and different other keys *)
+  exists ps1 ps2,
+    bind_params [] [([80], dStrDefault)] [([81], VStr [113])] = Ok ps1 /\
+    bind_params [] [([82], dListNoDefault); ([80], dStrDefault)] [([82], VStr [97;44;98])] = Ok ps2 /\
+    NoDup (keys [([80], dStrDefault)]) /\ NoDup (keys [([82], dListNoDefault); ([80], dStrDefault)]) /\
+    lookup [80] ps1 = Some (VStr [100]) /\ lookup [80] ps2 = Some (VStr [100]) /\ ps1 <> ps2.
+Proof.
+  eexists. eexists. split; [vm_compute; reflexivity|]. split; [vm_compute; reflexivity|].
+  split; [repeat constructor; intros []|]. split; [repeat constructor; [intros [H|[]]; discriminate H | intros []]|].
+  split; [vm_compute; reflexivity|]. split; [vm_compute; reflexivity | discriminate].
+Qed.
+
+(* (b) supplying a value EQUAL to the Default changes no binding ... *)
+Theorem C04_supply_default_value : forall d v, field K_Default d = Some v -> is_noecho d = false ->
+  ref_value d (Some v) = ref_value d None.
+Proof. exact supply_default_value. Qed.
+Print Assumptions C04_supply_default_value.
+Theorem C04_supply_default_binding : forall pseudo decls extra k d v, NoDup (keys decls) -> lookup k decls = Some d ->
+  field K_Default d = Some v -> is_noecho d = false -> supplied k extra = None ->
+  bind_params pseudo decls ((k, v) :: extra) = bind_params pseudo decls extra.
+Proof. exact supply_default_binding. Qed.
+Print Assumptions C04_supply_default_binding.
+Theorem C04_supply_default_model : forall pseudo decls extra maps cdecl rs k d v, NoDup (keys decls) -> lookup k decls = Some d ->
+  field K_Default d = Some v -> is_noecho d = false -> supplied k extra = None ->
+  resolve_model pseudo decls ((k, v) :: extra) maps cdecl rs = resolve_model pseudo decls extra maps cdecl rs.
+Proof. exact supply_default_model. Qed.
+Print Assumptions C04_supply_default_model.
+Example C04_ex_supply_default : NoDup (keys [([80], dStrDefault)]) /\ lookup [80] [([80], dStrDefault)] = Some dStrDefault /\
+  field K_Default dStrDefault = Some (VStr [100]) /\ is_noecho dStrDefault = false /\ supplied [80] [] = None /\
+  bind_params [] [([80], dStrDefault)] [([80], VStr [100])] = Ok [([80], VStr [100])].
+Proof. split; [repeat constructor; intros []|]. repeat split; vm_compute; reflexivity. Qed.
+(* ... EXCEPT for a NoEcho parameter: the marker says whether a value was supplied *)
+Theorem C04_supply_default_noecho : forall d v, field K_Default d = Some v -> is_noecho d = true ->
+  ref_value d (Some v) = Ok (Some (VStr S_NO_ECHO_WITH_VALUE)) /\ ref_value d None = Ok (Some (VStr S_NO_ECHO_WITH_DEFAULT)) /\
+  S_NO_ECHO_WITH_VALUE <> S_NO_ECHO_WITH_DEFAULT.
+Proof. exact supply_default_noecho. Qed.
+Print Assumptions C04_supply_default_noecho.
+Example C04_ex_supply_default_noecho : field K_Default dNoEchoDefault = Some (VStr [100]) /\ is_noecho dNoEchoDefault = true.
+Proof. split; vm_compute; reflexivity. Qed.
+
+(* (c) IDEMPOTENCE: a rendered value is a fixed point of the rendering, so supplying the visible bindings again (own bindings of
+   the declared parameters + the undeclared supplied keys) reproduces exactly the same table -- when no parameter is NoEcho *)
+Theorem C04_rendered_fixed_point : forall d p v, is_noecho d = false -> ref_value d p = Ok (Some v) -> ref_value d (Some v) = Ok (Some v).
+Proof. exact ref_value_fixed. Qed.
+Print Assumptions C04_rendered_fixed_point.
+Theorem C04_bind_idempotent : forall pseudo decls extra declared, NoDup (keys decls) ->
+  (forall k d, In (k, d) decls -> is_noecho d = false) -> bind_declared decls extra = Ok declared ->
+  bind_params pseudo decls (undeclared decls extra ++ declared) = bind_params pseudo decls extra.
+Proof. exact bind_idempotent. Qed.
+Print Assumptions C04_bind_idempotent.
+Example C04_ex_bind_idempotent :        (* a Number default 5 (rendered "5"), a list supplied as text, an undeclared key *)
+  let decls := [([78], VDict [(K_Type, VStr [78]); (K_Default, VInt 5)]); ([76], dListNoDefault)] in
+  let extra := [([76], VStr [97;44;98]); ([88], VInt 7)] in
+  NoDup (keys decls) /\ (forall k d, In (k, d) decls -> is_noecho d = false) /\
+  bind_declared decls extra = Ok [([78], VStr [53]); ([76], VList [VStr [97]; VStr [98]])] /\
+  undeclared decls extra = [([88], VInt 7)].
+Proof.
+  cbv zeta. split; [repeat constructor; [intros [H|[]]; discriminate H | intros []]|].
+  split; [intros k d [H|[H|[]]]; inversion H; subst; vm_compute; reflexivity|]. split; vm_compute; reflexivity.
+Qed.
+(* a NoEcho parameter breaks it: its marker, supplied again, is "a value" *)
+Theorem C04_noecho_resupply : forall d m, is_noecho d = true -> ref_value d None = Ok (Some m) ->
+  ref_value d (Some m) = Ok (Some (VStr S_NO_ECHO_WITH_VALUE)) /\ m <> VStr S_NO_ECHO_WITH_VALUE.
+Proof. exact noecho_resupply. Qed.
+Print Assumptions C04_noecho_resupply.
+Theorem C04_bind_idempotent_noecho_refuted : exists decls extra declared k,
+  NoDup (keys decls) /\ bind_declared decls extra = Ok declared /\
+  (exists ps1 ps2, bind_params [] decls extra = Ok ps1 /\ bind_params [] decls (undeclared decls extra ++ declared) = Ok ps2 /\
+     lookup k ps1 = Some (VStr S_NO_ECHO_NO_DEFAULT) /\ lookup k ps2 = Some (VStr S_NO_ECHO_WITH_VALUE)).
+Proof. exact bind_idempotent_noecho_refuted. Qed.
+Print Assumptions C04_bind_idempotent_noecho_refuted.
+(* ... and the credential verdict of a whole template follows the marker: not reported, then reported *)
+Example C04_ex_resupplied_marker_is_reported :
+  hcOf declsUnset [] [] = Ok false /\ hcOf declsUnset [(nSecret, VStr S_NO_ECHO_NO_DEFAULT)] [] = Ok true /\
+  is_noecho (VDict declBody) = true /\ ref_value (VDict declBody) None = Ok (Some (VStr S_NO_ECHO_NO_DEFAULT)).
+Proof. repeat split; vm_compute; reflexivity. Qed.
+
+(* (d) list-typed parameters: the text "a,b" and the list ["a","b"] bind to the same list *)
+Theorem C04_list_text_vs_list : forall d s, is_noecho d = false -> is_list_type d = true ->
+  ref_value d (Some (VStr s)) = ref_value d (Some (VList (map VStr (split S_COMMA s)))).
+Proof. exact list_text_vs_list. Qed.
+Print Assumptions C04_list_text_vs_list.
+(* a bare text without a comma = the one-element list *)
+Theorem C04_list_bare_text : forall d s, is_noecho d = false -> is_list_type d = true -> ~ In 44 s ->
+  ref_value d (Some (VStr s)) = Ok (Some (VList [VStr s])) /\ ref_value d (Some (VList [VStr s])) = Ok (Some (VList [VStr s])).
+Proof. exact list_bare_text. Qed.
+Print Assumptions C04_list_bare_text.
+(* the EMPTY text binds [""] (one empty item, Python's "".split(",")), the empty list binds [] *)
+Theorem C04_list_empty_text : forall d, is_noecho d = false -> is_list_type d = true ->
+  ref_value d (Some (VStr [])) = Ok (Some (VList [VStr []])) /\ ref_value d (Some (VList [])) = Ok (Some (VList [])).
+Proof. exact list_empty_text. Qed.
+Print Assumptions C04_list_empty_text.
+Example C04_ex_list_hyps : is_noecho dListNoDefault = false /\ is_list_type dListNoDefault = true /\ ~ In 44 [97] /\
+  split S_COMMA [97;44;98] = [[97]; [98]].
+Proof. split; [reflexivity|]. split; [reflexivity|]. split; [intros [H|[]]; discriminate H | vm_compute; reflexivity]. Qed.
+(* the members of a supplied LIST are bound as they are, those of a supplied text as text: "1,2" binds ["1","2"], [1,2] binds
+   [1,2] (docstring: "the string version of each element"); a Ref renders the members, so the resolved model does not differ *)
+Theorem C04_list_members_not_rendered_refuted :
+  ref_value dNumList (Some (VStr [49; 44; 50])) = Ok (Some (VList [VStr [49]; VStr [50]])) /\
+  ref_value dNumList (Some (VList [VInt 1; VInt 2])) = Ok (Some (VList [VInt 1; VInt 2])) /\
+  normalize [] (VList [VInt 1; VInt 2]) = normalize [] (VList [VStr [49]; VStr [50]]).
+Proof. exact list_members_not_rendered_refuted. Qed.
+Print Assumptions C04_list_members_not_rendered_refuted.
+
+(* (e) PRECEDENCE as ONE theorem.  Declared name: supplied value (rendered) > Default (rendered) > [NoEcho: the NO_DEFAULT
+   marker] > library default of that name > unbound.  Undeclared name (pseudo parameters included): the supplied value AS IT IS
+   > library default > unbound *)
+Theorem C04_precedence_chain : forall pseudo decls extra ps, bind_params pseudo decls extra = Ok ps -> NoDup (keys decls) ->
+  forall k,
+  match lookup k decls with
+  | Some d =>
+      match supplied k extra, field K_Default d with
+      | Some v, _ => exists r, render_param d v S_NO_ECHO_WITH_VALUE = Ok r /\ lookup k ps = Some r
+      | None, Some v => exists r, render_param d v S_NO_ECHO_WITH_DEFAULT = Ok r /\ lookup k ps = Some r
+      | None, None => lookup k ps = if is_noecho d then Some (VStr S_NO_ECHO_NO_DEFAULT) else lookup k pseudo
+      end
+  | None => lookup k ps = match lookup k extra with Some v => Some v | None => lookup k pseudo end
+  end.
+Proof. exact precedence_chain. Qed.
+Print Assumptions C04_precedence_chain.
+Definition nRegion : str := [65;87;83;58;58;82;101;103;105;111;110].          (* "AWS::Region" *)
+Definition pseudoEx : list (str * value) := [(nRegion, VStr [101;117])].      (* library default "eu" *)
+Example C04_ex_precedence_chain :       (* all five levels, for declared P (Default "d"), declared Q (no Default), pseudo, undeclared *)
+  exists ps1 ps2, 
+    bind_params pseudoEx [([80], dStrDefault); (nRegion, dListNoDefault)] [([80], VInt 7); ([88], VInt 7)] = Ok ps1 /\
+    bind_params pseudoEx [([80], dStrDefault)] [(nRegion, VStr [117;115])] = Ok ps2 /\
+    lookup [80] ps1 = Some (VStr [55]) /\              (* declared + supplied 7: rendered "7" *)
+    lookup [80] ps2 = Some (VStr [100]) /\             (* declared, not supplied: Default *)
+    lookup nRegion ps1 = Some (VStr [101;117]) /\      (* declared without Default, not supplied: the library default of the name *)
+    lookup nRegion ps2 = Some (VStr [117;115]) /\      (* pseudo parameter supplied: overrides the library default *)
+    lookup [88] ps1 = Some (VInt 7) /\                 (* undeclared ordinary name: bound as supplied (not rendered) *)
+    lookup [89] ps1 = None.                            (* unbound *)
+Proof. eexists. eexists. split; [vm_compute; reflexivity|]. split; [vm_compute; reflexivity|]. repeat split; vm_compute; reflexivity. Qed.
+(* inside it: an explicit null means "not supplied" for a declared name, but is BOUND for an undeclared one (and then hides the
+   library default of a pseudo parameter) *)
+Theorem C04_null_supplied_asymmetry : forall pseudo decls extra ps k, bind_params pseudo decls extra = Ok ps -> NoDup (keys decls) ->
+  lookup k extra = Some VNull ->
+  match lookup k decls with
+  | Some d => lookup k ps = match ref_value d None with Ok (Some v) => Some v | _ => lookup k pseudo end
+  | None => lookup k ps = Some VNull
+  end.
+Proof. exact null_supplied_asymmetry. Qed.
+Print Assumptions C04_null_supplied_asymmetry.
+Example C04_ex_null_supplied : exists ps, bind_params pseudoEx [([80], dStrDefault)] [([80], VNull); (nRegion, VNull)] = Ok ps /\
+  NoDup (keys [([80], dStrDefault)]) /\ lookup [80] ps = Some (VStr [100]) /\ lookup nRegion ps = Some VNull.
+Proof. eexists. split; [vm_compute; reflexivity|]. split; [repeat constructor; intros []|]. split; vm_compute; reflexivity. Qed.
+
+(* (f) has_hardcoded_credentials as a COMPLETE decision table.  A credential field comes from nothing (CAbsent), a literal
+   (CLiteral s) or a reference to a NoEcho parameter (CRefNoEcho has_default supplied); cred_val is its value in the resolved
+   model.  A field of an authentication entry counts unless it is absent or spells the NO_DEFAULT marker; the user's password
+   counts under the same rule except that an EMPTY literal does not *)
+Theorem C04_hc_resource_table : forall entries,
+  has_hc (md_of entries) = Ok (existsb (fun ke => entry_reported (snd ke)) entries).
+Proof. exact hc_resource_table. Qed.
+Print Assumptions C04_hc_resource_table.
+Theorem C04_hc_user_table : forall lp entries,
+  has_hc_user (login_of lp) (md_of entries) = Ok (password_reported lp || existsb (fun ke => entry_reported (snd ke)) entries).
+Proof. exact hc_user_table. Qed.
+Print Assumptions C04_hc_user_table.
+(* the rows, spelled out *)
+Example C04_ex_hc_rows :
+  field_reported CAbsent = false /\ field_reported (CLiteral [120]) = true /\ field_reported (CLiteral []) = true /\
+  field_reported (CLiteral S_NO_ECHO_NO_DEFAULT) = false /\
+  field_reported (CRefNoEcho false false) = false /\ field_reported (CRefNoEcho true false) = true /\
+  field_reported (CRefNoEcho false true) = true /\ field_reported (CRefNoEcho true true) = true /\
+  password_reported None = false /\ password_reported (Some CAbsent) = false /\ password_reported (Some (CLiteral [120])) = true /\
+  password_reported (Some (CLiteral [])) = false /\ password_reported (Some (CLiteral S_NO_ECHO_NO_DEFAULT)) = false /\
+  password_reported (Some (CRefNoEcho false false)) = false /\ password_reported (Some (CRefNoEcho true false)) = true /\
+  password_reported (Some (CRefNoEcho false true)) = true.
+Proof. repeat split; vm_compute; reflexivity. Qed.
+(* the two places judge the same source differently for the empty literal only *)
+Theorem C04_password_vs_field : forall c, password_reported (Some c) = field_reported c \/ c = CLiteral [].
+Proof. exact password_vs_field. Qed.
+Print Assumptions C04_password_vs_field.
+(* CRefNoEcho is what a reference to a NoEcho parameter resolves to *)
+Theorem C04_cred_val_is_ref : forall pseudo decls extra ps maps cf s d, bind_params pseudo decls extra = Ok ps -> NoDup (keys decls) ->
+  lookup s decls = Some d -> is_noecho d = true ->
+  do_ref {| params := ps; mappings := maps; conds := cf |} (VStr s) =
+  match cred_val (CRefNoEcho (match field K_Default d with Some _ => true | None => false end)
+                             (match supplied s extra with Some _ => true | None => false end)) with
+  | Some v => Ok v | None => Err EUndefined end.
+Proof. exact cred_val_is_ref. Qed.
+Print Assumptions C04_cred_val_is_ref.
+Example C04_ex_hc_table_template :      (* the table agrees with a whole template run through resolve_model *)
+  hcOf declsUnset [] [([97;49], VDict [(K_secretKey, refTo nSecret)])] =
+    has_hc_user (login_of (Some (CRefNoEcho false false))) (md_of [([97;49], (CAbsent, CAbsent, CRefNoEcho false false))]) /\
+  hcOf declsUnset [(nSecret, VStr [120])] [([97;49], VDict [(K_secretKey, refTo nSecret)])] =
+    has_hc_user (login_of (Some (CRefNoEcho false true))) (md_of [([97;49], (CAbsent, CAbsent, CRefNoEcho false true))]) /\
+  hcOf declsUnset [(nSecret, VStr [120])] [] = Ok true /\ hcOf declsUnset [] [([97;49], VDict [(K_password, VStr [])])] = Ok true.
+Proof. repeat split; vm_compute; reflexivity. Qed.
